@@ -171,6 +171,16 @@ def check(ctx):
                mod=ho.mod, node=hfn, sig="hash-identity", trivial=True)
         extra = sorted(p for p in h_paths if not covered(p, eq_paths) and not p.startswith("self."))
         extra += sorted(p for p in h_paths if p.startswith("self.") and p[5:] not in eq_fields and canon_attr(m, c, p[5:]) not in eq_fields)
+        # attribute level: a field the hash reads but __eq__ does not compare is acceptable only if it is a parameter stored as given (then the
+        # path comparison above is exact); a field COMPUTED from parameters (e.g. "was dom passed explicitly") can differ between equal values
+        eq_canon = {canon_attr(m, c, f) for f in eq_fields}
+        for f in sorted(hf):
+            cf = canon_attr(m, c, f)
+            pv = prov.get(cf) if cf in prov else prov.get("_" + cf.lstrip("_"))
+            if cf in eq_canon or pv is None:
+                continue
+            if isinstance(pv, tuple) and pv and pv[0] == "raw" and isinstance(pv[1], str) and (" is None" in pv[1] or " is not None" in pv[1]):
+                extra.append("self.%s (computed as `%s`: it records whether an optional argument was given, which the compared fields do not)" % (cf, pv[1][:60]))
         ctx.ob("R03.2", c.q + ":hash-determined-by-eq", not extra, found="hash reads %s -> parameter paths %s; not compared by __eq__: %s" % (sorted(hf), sorted(h_paths), extra),
                required="paths compared by __eq__ (%s): %s" % (eo.q, sorted(eq_paths)), mod=ho.mod, node=hfn, sig="hash-subset-eq:" + ",".join(extra))
         # ---- R03.3: eq ⊆ repr (general branch) ; constructor syntax
@@ -185,6 +195,11 @@ def check(ctx):
         check_normalised_access(ctx, m, c)
     check_one_box(ctx, m)
     check_total_order(ctx, m)
+    ns = check_returns_str(ctx, m)
+    ctx.need(ns >= 25, "fewer than 25 __repr__ / __str__ methods scanned (%d)" % ns)
+    ctx.rule("R03.6", "no method other than the constructor changes a field in place (directly or through an alias)")
+    n6 = check_immutability(ctx, m)
+    ctx.need(n6 >= 100, "fewer than 100 methods scanned for in-place changes (%d)" % n6)
     ctx.rule("R03.5", "types normalise their objects into the class whose attributes their repr / hash / adjoints read")
     n5 = check_type_normalisation(ctx, m)
     ctx.need(n5 >= 2, "fewer than 2 type constructors normalise their objects (%d)" % n5)
@@ -331,6 +346,115 @@ def check_type_normalisation(ctx, m):
                 n += 1
                 ctx.ob("R03.5", "%s.__init__:objects" % c.q, m.is_subclass(K1, K2), found="objects that are %s are kept as they are, the others become %s" % (K1.q, K2.q),
                        required="only objects that already are %s (whose attributes __repr__ / __hash__ / adjoints of this type read) are kept unconverted" % K2.q, mod=c.mod, node=x, sig="type-objects")
+    return n
+
+
+MUTATING = ("append", "extend", "insert", "pop", "remove", "clear", "sort", "reverse", "update", "add", "discard", "setdefault", "popitem")
+
+
+def check_immutability(ctx, m):
+    """R03.6: values are compared and hashed by their fields, so no method other than the constructor may change a field in place -- directly or through
+    a local alias (`terms = self.terms; terms += ...` extends the operand's own list)"""
+    n = 0
+    arrow, ob = m.cls(CAT + ".Arrow"), m.cls(CAT + ".Ob")
+    for c in classes_in_scope(m):
+        if not (arrow in m.mro(c) or ob in m.mro(c)):
+            continue
+        for name, (fn, kind) in sorted(c.methods.items()):
+            if name in ("__init__", "__new__", "__setstate__") or not isinstance(fn, ast.FunctionDef) or not fn.args.args:
+                continue
+            self_ = fn.args.args[0].arg
+
+            def fresh(attr):
+                r = m.lookup(c, attr)
+                if r and r[2] == "property" and isinstance(r[1], ast.FunctionDef):
+                    body = [x for x in r[1].body if not (isinstance(x, ast.Expr) and isinstance(x.value, ast.Constant))]
+                    return len(body) == 1 and isinstance(body[0], ast.Return) and isinstance(body[0].value, ast.Call) and ast.unparse(body[0].value.func) in ("list", "tuple", "dict", "set")
+                return False
+            alias = {}
+            for st in ast.walk(fn):
+                if isinstance(st, ast.Assign) and len(st.targets) == 1 and isinstance(st.targets[0], ast.Name) and isinstance(st.value, ast.Attribute) \
+                        and isinstance(st.value.value, ast.Name) and st.value.value.id == self_ and not fresh(st.value.attr):
+                    alias[st.targets[0].id] = st.value.attr
+            hits = []
+            for st in ast.walk(fn):
+                tgt = None
+                if isinstance(st, ast.AugAssign):
+                    tgt = st.target
+                elif isinstance(st, ast.Assign) and isinstance(st.targets[0], ast.Subscript):
+                    tgt = st.targets[0].value
+                elif isinstance(st, ast.Call) and isinstance(st.func, ast.Attribute) and st.func.attr in MUTATING:
+                    tgt = st.func.value
+                elif isinstance(st, ast.Delete) and isinstance(st.targets[0], ast.Subscript):
+                    tgt = st.targets[0].value
+                if tgt is None:
+                    continue
+                if isinstance(tgt, ast.Name) and tgt.id in alias:
+                    hits.append("`%s` changes self.%s in place through the alias `%s`" % (ast.unparse(st)[:50], alias[tgt.id], tgt.id))
+                elif isinstance(tgt, ast.Attribute) and isinstance(tgt.value, ast.Name) and tgt.value.id == self_ and not fresh(tgt.attr) and \
+                        (isinstance(st, ast.AugAssign) and isinstance(st.target, ast.Attribute) is False or not isinstance(st, ast.AugAssign)):
+                    hits.append("`%s` changes self.%s in place" % (ast.unparse(st)[:50], tgt.attr))
+            n += 1
+            ctx.ob("R03.6", "%s.%s:immutable" % (c.q, name), not hits, found=hits[:2] or "no in-place change of a field", required="methods build new values; the operands keep the fields their name, repr and hash were computed from",
+                   mod=c.mod, node=fn, sig="mutation:%s" % ",".join(sorted({h.split("self.")[1].split(" ")[0] for h in hits})), trivial=True)
+    return n
+
+
+def is_strish(e, local, depth=0):
+    """does the expression produce a str whatever the fields hold?"""
+    if depth > 6:
+        return False
+    if isinstance(e, ast.JoinedStr) or (isinstance(e, ast.Constant) and isinstance(e.value, str)):
+        return True
+    if isinstance(e, ast.Call):
+        f = ast.unparse(e.func)
+        if f in ("str", "repr", "format", "format_number", "array2string") or f.endswith((".format", ".join", ".replace", ".strip", ".lower", ".upper", "__repr__", "__str__")) or f in ("super().__repr__", "super().__str__"):
+            return True
+        return False
+    if isinstance(e, ast.BinOp) and isinstance(e.op, (ast.Add, ast.Mod)):
+        return is_strish(e.left, local, depth + 1) and (isinstance(e.op, ast.Mod) or is_strish(e.right, local, depth + 1))
+    if isinstance(e, ast.BinOp) and isinstance(e.op, ast.Mult):
+        return is_strish(e.left, local, depth + 1) or is_strish(e.right, local, depth + 1)            # n * '.l'
+    if isinstance(e, ast.IfExp):
+        return is_strish(e.body, local, depth + 1) and is_strish(e.orelse, local, depth + 1)
+    if isinstance(e, ast.BoolOp):
+        return all(is_strish(v, local, depth + 1) for v in e.values)
+    if isinstance(e, ast.Attribute) and ast.unparse(e) in local.get("__str_fields__", ()):
+        return True
+    if isinstance(e, ast.Name) and e.id in local:
+        return all(is_strish(v, local, depth + 1) for v in local[e.id])
+    return False
+
+
+def check_returns_str(ctx, m):
+    """R03.3: printing never fails: every __repr__ / __str__ returns a string whatever the fields hold (names may be any object)"""
+    n = 0
+    for c in classes_in_scope(m):
+        for meth in ("__repr__", "__str__"):
+            if meth not in c.methods:
+                continue
+            fn = c.methods[meth][0]
+            local = {}
+            # fields the constructor fills with a string it formats itself (e.g. the name of a Sum)
+            try:
+                pv = init_prov(m, c)
+            except Exception:
+                pv = {}
+
+            def str_prov(t):
+                return isinstance(t, tuple) and t and ((t[0] == "const" and isinstance(t[1], str)) or (t[0] == "call" and isinstance(t[1], str) and t[1].endswith((".format", "str", "repr")))
+                                                       or (t[0] == "ite" and str_prov(t[2]) and str_prov(t[3])))
+            self_n = fn.args.args[0].arg if fn.args.args else "self"
+            local["__str_fields__"] = tuple("%s.%s" % (self_n, f.lstrip("_")) for f, t in pv.items() if str_prov(t)) + tuple("%s.%s" % (self_n, f) for f, t in pv.items() if str_prov(t))
+            for st in ast.walk(fn):
+                if isinstance(st, ast.Assign) and len(st.targets) == 1 and isinstance(st.targets[0], ast.Name):
+                    local.setdefault(st.targets[0].id, []).append(st.value)
+                elif isinstance(st, ast.AugAssign) and isinstance(st.target, ast.Name):
+                    local.setdefault(st.target.id, []).append(st.value)
+            bad = [ast.unparse(r.value)[:60] for r in ast.walk(fn) if isinstance(r, ast.Return) and r.value is not None and not is_strish(r.value, local)]
+            n += 1
+            ctx.ob("R03.3", "%s.%s:returns-str" % (c.q, meth), not bad, found=bad or "every return is a string expression", required="a str on every path (str(...), format, repr, concatenation of those): "
+                   "names and data may be arbitrary objects, and messages of refusals are built from str(diagram)", mod=c.mod, node=fn, sig="returns-str", trivial=True)
     return n
 
 
